@@ -79,6 +79,11 @@ class Run:
                 broken.append(f'family {f.name}: no reachability witness (vacuous)')
             if f.need_witness and f.obligations == 0 and not f.candidates:
                 broken.append(f'family {f.name}: no obligation was generated')
+        # a counterexample whose path went through an unmodelled (havocked) call is believed only when its
+        # concretised witness reproduces natively; otherwise it is inconclusive and does not change the exit code
+        for c in all_c:
+            if c.unmodelled and c.status != 'reproduced':
+                c.status = 'inconclusive'
         seen_roles = set()
         os.makedirs(os.path.join(VERIF, 'evidence', 'replays'), exist_ok=True)
         for c in all_c:
